@@ -28,7 +28,15 @@ def main():
         v = json.load(open(args.replay))
         sys.exit(replay(mod, v, args.tier, seed))
     t0 = time.time()
-    acc, exhaustive, extra = mod.run(args.tier, seed)
+    try:
+        acc, exhaustive, extra = mod.run(args.tier, seed)
+    except Exception as e:  # the library raised somewhere no sub-check expects it: the exploration cannot vouch for the property
+        import traceback
+
+        tb = traceback.format_exc()
+        acc, exhaustive, extra = core.Acc(), False, {"aborted": f"{type(e).__name__}: {e}"}
+        acc.violations.append({"sub": "exploration/aborted_by_exception", "key": f"{type(e).__name__}", "observed": tb[-1500:], "expected": "the exploration runs to completion (it does on the unchanged tree)",
+                               "case": {"traceback": tb[-4000:]}, "subcheck": "exploration"})
     if args.tier == "thorough" and not os.environ.get("VERIF_EVIDENCE_OUT"):
         extra = dict(extra or {})
         extra.update(hashseed_runs(args.prop, acc))
